@@ -2,10 +2,12 @@ package rigv
 
 import (
 	"context"
+	"errors"
 	"fmt"
 	"net/http"
 	"net/http/httptest"
 	"strings"
+	"sync"
 	"testing"
 	"time"
 
@@ -239,6 +241,31 @@ func c09Ops() []c09Op {
 			}
 			return err
 		}},
+		{name: "streamer-ack-and-nack-one-request", class: "streamer", run: func(ctx context.Context, st *c09State) error {
+			// the message streamer fed the way the HTTP push connection feeds it: one
+			// request carrying both acks and (real) nacks - applied in ONE transaction
+			id := uuid.MustParse(must(rig.TakeDump(st.e.RawDB()))["subscriptions"][0]["id"])
+			for _, r := range must(rig.TakeDump(st.e.RawDB()))["subscriptions"] {
+				if r["name"] == c9S1 {
+					id = uuid.MustParse(r["id"])
+				}
+			}
+			conn := &scriptedConn{first: &actions.MessageStreamRequest{
+				FlowControl: &actions.FlowControl{MaxMessages: 100, MaxBytes: 1 << 20},
+				Ack:         uuids(st.ackS1[:2]), Nack: uuids(st.ackS1[2:])}, ctx: ctx, sent: make(chan struct{}, 1000)}
+			ms := &actions.MessageStreamer{Client: st.e.Client, SubscriptionID: &id, SubscriptionName: c9S1, AutomaticNack: true}
+			sctx, cancel := context.WithCancel(ctx)
+			done := make(chan error, 1)
+			go func() { done <- ms.Go(sctx, conn) }()
+			rig.Quiesce()
+			cancel()
+			err := <-done
+			rig.Quiesce()
+			if err != nil && (errors.Is(err, context.Canceled) || strings.Contains(err.Error(), "context canceled")) && ctx.Err() == nil {
+				return nil
+			}
+			return err
+		}},
 		{name: "seek-to-time", class: "unit", run: func(ctx context.Context, st *c09State) error {
 			_, err := st.e.Sub.Seek(ctx, &pubsubpb.SeekRequest{Subscription: c9S1, Target: &pubsubpb.SeekRequest_Time{Time: timestamppb.New(st.beforeM3)}})
 			return err
@@ -291,6 +318,31 @@ func c09Ops() []c09Op {
 		ops = append(ops, jobOp(j))
 	}
 	return ops
+}
+
+// scriptedConn is a StreamConnection that delivers one request and then waits.
+type scriptedConn struct {
+	first *actions.MessageStreamRequest
+	ctx   context.Context
+	sent  chan struct{}
+	mu    sync.Mutex
+	given bool
+}
+
+func (c *scriptedConn) Close() error { return nil }
+func (c *scriptedConn) Receive(ctx context.Context) (*actions.MessageStreamRequest, error) {
+	c.mu.Lock()
+	if !c.given {
+		c.given = true
+		c.mu.Unlock()
+		return c.first, nil
+	}
+	c.mu.Unlock()
+	<-ctx.Done()
+	return nil, ctx.Err()
+}
+func (c *scriptedConn) Send(ctx context.Context, d *actions.SubscriptionMessageDelivery) error {
+	return nil
 }
 
 // ---- the enumeration --------------------------------------------------------
@@ -405,6 +457,47 @@ func TestC09(t *testing.T) {
 						wit := func() map[string]any {
 							return map[string]any{"operation": op.name, "class": op.class, "variant": v, "fault_at_statement": k, "mode": modeName[mode], "case_seed": seed,
 								"error": fmt.Sprint(err), "commits_before_fault": commits, "notifications": closed, "sql_tail": seam.C.TraceTail(40)}
+						}
+						if op.class == "streamer" {
+							// acks and nacks of one streamer request are ONE transaction
+							if hit {
+								points++
+								hitsTotal++
+								col.Case(evd.FP(op.name, v, k, mode), true)
+							}
+							row := func(d rig.Dump, id string) rig.Row {
+								for _, r := range d["deliveries"] {
+									if r["id"] == id {
+										return r
+									}
+								}
+								return rig.Row{}
+							}
+							ackedN, moved := 0, 0
+							for _, id := range st.ackS1[:2] {
+								if row(dump1, id)["completed_at"] != "NULL" {
+									ackedN++
+								}
+							}
+							for _, id := range st.ackS1[2:] {
+								if row(dump1, id)["attempt_at"] != row(dump0, id)["attempt_at"] {
+									moved++
+								}
+							}
+							nn := len(st.ackS1) - 2
+							all := ackedN == 2 && moved == nn
+							none := ackedN == 0 && moved == 0
+							if !all && !none {
+								col.Violation("not-atomic:"+op.name, fmt.Sprintf("streamer request with 2 acks + %d nacks and a fault at statement %d (%s): %d acks and %d nacks applied - the request was half applied", nn, k, modeName[mode], ackedN, moved), wit())
+							}
+							if none && len(closed) > 0 && hit {
+								col.Violation("notified-without-commit:"+op.name, fmt.Sprintf("streamer ack+nack request failed at statement %d (%s), nothing was applied, yet waiters were woken: %v", k, modeName[mode], closed), wit())
+							}
+							if !hit || all {
+								col.Add("ev_statements_enumerated", int64(k-1))
+								break
+							}
+							continue
 						}
 						if op.class == "stream" {
 							// a stream has internal concurrency (its sender keeps pulling);
